@@ -81,6 +81,11 @@ class Sim:
                 self.store.setdefault(n, unhx(b))
         if ob["outcome"] == "bad":
             self.fail("oracle-internal", idx, "malformed history line: " + " ".join(t)); return
+        if op == "layer":
+            self.expect("layer", idx, ob, "ok", "n:%d" % key_layer(t[1], int(t[2]))); return
+        if op == "cmp":
+            a, b = key_sort(t[1]), key_sort(t[2])
+            self.expect("cmp", idx, ob, "ok", "n:%d" % (-1 if a < b else 1 if a > b else 0)); return
         if op == "new":
             self.expect("new", idx, ob, "ok")
             self.trees[int(t[1])] = {}; self.base[int(t[1])] = {}; self.tbf[int(t[1])] = int(t[3]) or 16
